@@ -873,6 +873,55 @@ func (a *Adv) AuthProbes(perTxn int) int {
 			}
 		}
 	}
+	// Witnesses taken from an earlier transaction of the block: a fresh transaction that spends another stored output
+	// of the same address and carries, byte for byte, the satisfied policy of an honest input (signatures over the
+	// honest transaction's hash). Whatever was concluded about those witnesses for the earlier transaction, they do
+	// not sign this one. Control: the fresh transaction honestly signed.
+	if a.v2Allowed() {
+		used := map[types.SiacoinOutputID]bool{}
+		for _, t := range a.Honest.Transactions {
+			for _, in := range t.SiacoinInputs {
+				used[in.ParentID] = true
+			}
+		}
+		for _, t := range a.Honest.V2Transactions() {
+			for _, in := range t.SiacoinInputs {
+				used[in.Parent.ID] = true
+			}
+		}
+		stored := a.G.C.Store.SortedSC()
+	replay:
+		for _, at := range a.Honest.V2Transactions() {
+			for ii, in := range at.SiacoinInputs {
+				sp := in.SatisfiedPolicy
+				if len(sp.Signatures) == 0 || policyUsesUnknownAlgo(sp.Policy) {
+					continue
+				}
+				addr := in.Parent.SiacoinOutput.Address
+				lock, known := a.G.W.Locks[addr]
+				if !known {
+					continue
+				}
+				for _, e := range stored {
+					if used[e.ID] || e.SiacoinOutput.Address != addr || e.MaturityHeight > a.Child {
+						continue
+					}
+					fresh, ok := a.payV2(e, lock)
+					if !ok {
+						continue
+					}
+					bad := CloneV2(fresh)
+					bad.SiacoinInputs[0].SatisfiedPolicy = CloneV2(at).SiacoinInputs[ii].SatisfiedPolicy
+					tb, ok1 := a.withV2(CloneBlock(a.Honest), bad)
+					cb, ok2 := a.withV2(CloneBlock(a.Honest), fresh)
+					if ok1 && ok2 && a.emitPair(tb, cb, "v2/witness/taken-from-an-earlier-transaction-of-the-block", nil) {
+						n++
+					}
+					break replay
+				}
+			}
+		}
+	}
 	// v1 Foundation update appended to a transaction whose Foundation-controlled input is only partially
 	// signed: the partial signatures stay valid (they do not cover the added arbitrary data), so nothing but
 	// the whole-transaction-signature requirement of the Foundation rule stands between a relayer and the
